@@ -32,6 +32,7 @@ fn alphabet(unsol: bool) -> Vec<Ev> {
         Ev::Replace,
         Ev::AppIin(0),
         Ev::AppIin(3),
+        Ev::BadRead,
     ];
     if unsol {
         v.extend([Ev::UnsConfirm(true), Ev::UnsConfirm(false), Ev::Disable, Ev::EnableC1, Ev::EnableAll]);
